@@ -156,21 +156,30 @@ def audit_atomic(sc, r):
         bad.append(f"(iv) Commit returned a definite error ({told}) but the transaction is committed")
     if finish == "rollback" and is_committed:
         bad.append("Rollback was called but the transaction is committed")
-    # reads by the recovering client at a timestamp after recovery: all-or-nothing view
-    ra = r.get("reads_after_2") or {}
+    # reads by the recovering client must equal the MVCC truth (newest Put/Delete with commit <= read ts);
+    # together with (i)/(ii) this is the all-or-nothing view of (v)
     pre = {p["k"]: p["v"] for p in sc.get("preload", [])}
-    for k, op in muts.items():
-        if op not in ("put", "del", "ins"):
+    def truth(k, ts):
+        best = None
+        for w in (audit.get(k) or {}).get("writes", []):
+            if w["type"] in ("Put", "Delete", "Del") and w["commit"] <= ts and (best is None or w["commit"] > best["commit"]):
+                best = w
+        if best is None or best["type"] != "Put":
+            return None
+        return best["short"]
+    for name, tsk in (("reads_after_2", "ts_after"), ("reads_before", "ts_before")):
+        rd = r.get(name) or {}
+        ts = r.get(tsk)
+        if ts is None:
             continue
-        want_new = None if op == "del" else next(o["v"] for o in reversed(sc["txn"]["ops"]) if o["k"] == k and o["op"] in ("set", "insert"))
-        want_old = pre.get(k)
-        got = ra.get(k, "MISSING")
-        if isinstance(got, str) and got.startswith("ERR:"):
-            bad.append(f"read of {k} after recovery failed: {got}")
-        elif is_committed is True and got != want_new:
-            bad.append(f"(v) committed but read of {k} after recovery = {got!r}, want {want_new!r}")
-        elif is_committed is False and got != want_old:
-            bad.append(f"(v) not committed but read of {k} after recovery = {got!r}, want {want_old!r}")
+        for k in sc["keys"]:
+            if k not in rd:
+                continue
+            got = rd[k]
+            if isinstance(got, str) and got.startswith("ERR:"):
+                bad.append(f"read of {k} ({name}) failed: {got}")
+            elif got != truth(k, ts):
+                bad.append(f"(v) {name}: read of {k} at {ts} = {got!r} but the MVCC truth is {truth(k, ts)!r}")
     rb = r.get("reads_before") or {}
     for k in sc["keys"]:
         if k in rb and rb[k] != pre.get(k):
@@ -220,8 +229,13 @@ def project(sc, r):
             if (f.get("finish") or "commit") == "commit":
                 lines.append(f"commit_call\t{hexn(f['start'])}\t{1 if f.get('causal') else 0}")
                 ml = ",".join(f"{kid(kk.encode().hex())}:{op}" for kk, op in sorted(muts.items()))
-                prim = "0"
-                lines.append(f"mutations\t{hexn(f['start'])}\t{prim}\t{ml or '-'}")
+                prim = None
+                for e2 in r.get("trace", []):
+                    f2 = e2.get("f", {})
+                    if e2["kind"] in ("send", "crash") and f2.get("start") == f["start"] and f2.get("primary"):
+                        prim = kid(f2["primary"]); break
+                if prim is not None:
+                    lines.append(f"mutations\t{hexn(f['start'])}\t{prim}\t{ml or '-'}")
         elif k == "told":
             if (f.get("finish") or "commit") == "commit":
                 res = f["res"]
@@ -258,8 +272,7 @@ def project(sc, r):
                 ks = kl(sf.get("keys"))
                 if k == "send":
                     lines.append("\t".join(["prewrite_send", c, hexn(sf["start"]), kid(sf["primary"]), ks, "1" if sf.get("async") else "0",
-                                            "1" if sf.get("onepc") else "0", hexn(sf.get("min_commit", 0)), hexn(sf.get("for_update", 0)), kl(sf.get("secondaries")),
-                                            ",".join(sf.get("ops", [])) or "-"]))
+                                            "1" if sf.get("onepc") else "0", hexn(sf.get("min_commit", 0)), hexn(sf.get("for_update", 0)), kl(sf.get("secondaries"))]))
                 else:
                     if "rpc_err" in f or "regionerr" in f:
                         res = "regionerr"
@@ -324,7 +337,7 @@ def project(sc, r):
                     lines.append("\t".join(head + [st]))
             elif cmd == "ResolveLock":
                 infos = sf.get("txn_infos") or []
-                targets = [(i["start"], i["commit"]) for i in infos] if infos else [(sf["start"], sf["commit"])]
+                targets = [(i["start"], i["commit"]) for i in infos] if infos else ([(sf["start"], sf["commit"])] if sf.get("start") else [])
                 for st_, cm_ in targets:
                     head = [f"resolve_{ph}", c, hexn(st_), hexn(cm_), kl(sf.get("keys"))]
                     lines.append("\t".join(head if k == "send" else head + [res_simple()]))
